@@ -151,6 +151,125 @@ def scn(params):
         sim.close()
 
 
+# --- Engine B: tun.c's command construction under every operating-system configuration that compiles here ----------
+OS_CONFIGS = ["LINUX", "FREEBSD", "OPENBSD", "NETBSD"]
+ROUTE_CMD = re.compile(r"^PATH=/sbin:/bin route add (%s)/(\d+) (%s)$" % (Q_RE, Q_RE))
+
+
+def judge_os(cmd):
+    r = judge(cmd)
+    if r is None:
+        return None
+    try:
+        m = ROUTE_CMD.match(cmd.decode("ascii"))
+    except UnicodeDecodeError:
+        return r
+    if m and 1 <= int(m.group(2)) <= 32:
+        return None
+    return r
+
+
+def setip_cases(rng, n):
+    """(ip, other_ip, netbits) triples: the three peer-derived arguments of tun_setip(), and mtu values."""
+    lines, meta = [], []
+    ws = [b" ", b"\t", b"\n", b"\v", b"\f", b"\r", b"+", b"-", b"\r\n"]
+    for i in range(n):
+        r = rng.random()
+        if r < 0.12:
+            lines.append("M %d" % rng.choice([0, 1, 199, 200, 201, 1130, 1500, 1501, 65535, 4294967295, rng.getrandbits(32)]))
+            meta.append(("mtu", None, None))
+            continue
+        fields = []
+        classes = []
+        for f in range(2):
+            if rng.random() < 0.45:
+                v, c = gen_field(rng, "addr")
+            elif rng.random() < 0.5:
+                # white space / sign characters the C library's number parsers skip, in front of any octet
+                octs = [str(rng.choice([0, 1, 10, 27, 127, 200, 255])).encode() for _ in range(4)]
+                j = rng.randrange(4)
+                octs[j] = rng.choice(ws) * rng.choice([1, 1, 2]) + octs[j]
+                if rng.random() < 0.3:
+                    octs[j] = octs[j] + rng.choice([b"", b" ", b"\n"])
+                v, c = b".".join(octs), "skipped-by-strtoul"
+            else:
+                v, c = b"%d.%d.%d.%d" % (rng.randint(1, 223), rng.randint(0, 255), rng.randint(0, 255), rng.randint(1, 254)), "valid"
+            fields.append(v.replace(b"\x00", b"")[:900])
+            classes.append(c)
+        nb = rng.choice([24, 27, 8, 30, 16, 1, 32, 0, 33, -1, 31])
+        lines.append("I %s %s %d" % (fields[0].hex() or "-", fields[1].hex() or "-", nb))
+        meta.append(("setip", tuple(classes), (fields[0], fields[1], nb)))
+    return lines, meta
+
+
+def engine_b(ctx, res, b):
+    import os
+    import subprocess
+    from vflib.core import VERIF
+    n = ctx.pick(6000, 400000)
+    built = []
+    for osname in OS_CONFIGS:
+        try:
+            o = b.compile(os.path.join(VERIF, "unit", "tunset.c"), out=os.path.join(b.bin, "tunset_%s.o" % osname),
+                          extra=["-ULINUX", "-D" + osname])
+            exe = b.link("tunset_" + osname, [o], libs=())
+        except core.HarnessError as e:
+            res.extra.setdefault("os_configs_not_compilable_here", []).append(osname)
+            if osname == "LINUX":
+                raise
+            continue
+        built.append((osname, exe))
+    res.extra["os_configs_run"] = [x[0] for x in built]
+    stats = {"tun_setip_calls": 0, "tun_setmtu_calls": 0, "commands_judged": 0, "calls_refused": 0}
+    for osname, exe in built:
+        rng = random.Random(ctx.seed * 131 + 13)
+        lines, meta = setip_cases(rng, n)
+        env = dict(os.environ, ASAN_OPTIONS="abort_on_error=0:detect_leaks=0:exitcode=97", UBSAN_OPTIONS="print_stacktrace=1")
+        try:
+            r = subprocess.run([exe], input=("\n".join(lines) + "\n").encode(), capture_output=True, timeout=600, env=env)
+        except subprocess.TimeoutExpired:
+            res.inconc("tunset-timeout")
+            continue
+        if r.returncode != 0:
+            res.violations.append(core.Violation("C13:tunset:%s:crash" % osname, "tun.c's command construction died (exit %d) under -D%s" % (r.returncode, osname),
+                                                 {"stderr": r.stderr.decode("latin1")[-1500:], "seed": ctx.seed}))
+            continue
+        idx = -1
+        cmds = []
+        per = []
+        for ln in r.stdout.decode("ascii", "replace").split("\n"):
+            if ln.startswith("CMD "):
+                cmds.append(bytes.fromhex(ln[4:]))
+            elif ln.startswith("RET") or ln == "ERR":
+                per.append(cmds)
+                cmds = []
+        if len(per) != len(lines):
+            res.harness_errors.append("tunset %s: %d results for %d inputs" % (osname, len(per), len(lines)))
+            continue
+        for (kind, classes, args), cl in zip(meta, per):
+            if kind == "mtu":
+                stats["tun_setmtu_calls"] += 1
+            else:
+                stats["tun_setip_calls"] += 1
+            if not cl:
+                stats["calls_refused"] += 1
+            for c in cl:
+                stats["commands_judged"] += 1
+                res.evaluations += 1
+                why = judge_os(c)
+                if why is not None:
+                    res.violations.append(core.Violation("C13:tunset:%s:%s" % (osname, why),
+                                                         "tun.c built with -D%s runs the command %r for arguments %r" % (osname, c[:200], args),
+                                                         {"os_config": osname, "command": c.hex()[:600], "args": repr(args)[:600], "seed": ctx.seed}))
+                    break
+            if kind == "setip" and cl:
+                res.nt(repr(("tunset", osname, classes)))
+            if len(res.violations) > 5:
+                break
+    for k_, v_ in stats.items():
+        res.extra["engine_b_" + k_] = v_
+
+
 def run(ctx):
     res = core.Result()
     res.rule = ("scenario = real iodine client against a model server that completes V and answers each login attempt "
@@ -160,8 +279,12 @@ def run(ctx):
                 "downstream encodings T/S/U/V/R; oracle: every system() command matches "
                 "'ifconfig dnsN Q Q netmask Q' (Q = strict decimal dotted quad, netmask contiguous) or "
                 "'ifconfig dnsN mtu N' with 200 < N <= 1500. evaluations = hostile login replies delivered; "
-                "non-trivial/distinct = (field, corpus class, qtype, encoding) tuples.")
-    res.assumptions = ["Linux build (ifconfig command grammar of tun.c)", "interface name comes from the local tun open, not from the peer"]
+                "non-trivial/distinct = (field, corpus class, qtype, encoding) tuples. Engine B: the tree's tun.c is compiled as text "
+                "for every operating-system configuration that compiles here (LINUX, FREEBSD, OPENBSD, NETBSD - they differ in which "
+                "address goes on the command line and add a 'route add' command), system() replaced by a recorder; tun_setip / "
+                "tun_setmtu are called with the same hostile corpus plus octets preceded by characters strtoul/inet_addr skip; "
+                "every recorded command must match the same grammar (or 'route add Q/N Q').")
+    res.assumptions = ["Engine A: Linux build (ifconfig command grammar of tun.c); other configurations only in Engine B, Darwin and Windows not at all (headers missing here)", "interface name comes from the local tun open, not from the peer"]
     n = ctx.pick(2000, 120000)
     rng = random.Random(ctx.seed * 3571 + 13)
     plist = [{"idx": i, "seed": ctx.seed * 100000 + i, "rseed": rng.getrandbits(32), "qtype": QTS[i % 7],
@@ -171,6 +294,8 @@ def run(ctx):
     res.min_evaluations = 0 if ctx.replay else ctx.pick(800, 15000)
     res.min_nontrivial = 0 if ctx.replay else 200
     with core.Build() as b:
+        if not ctx.replay:
+            engine_b(ctx, res, b)
         simrun.run_scenarios(res, b, scn, plist, jobs=ctx.jobs)
     simrun.finalize_sets(res)
     return res
